@@ -32,7 +32,7 @@ def generate(seed, tier, index):
         sc = workloads.c07_random(r, tier)
         sc['shadow'] = True
         return sc
-    sc = physics.gen_config(r, allow_mass=True)
+    sc = physics.gen_config(r, allow_mass='multilevel')
     if r.random() < 0.06:
         sc['config']['level']['restol'] = 10 ** r.uniform(1, 3)  # tolerance already met by the initial guess
     cfg = sc['config']
